@@ -351,6 +351,7 @@ def rebuild_rules(P, R):
             R.ok("C09.rebuild", inst, "rebuilt from %s in %s" % (string.split("::")[-1], got[0][0]))
     rebuild_reach_rule(P, R, found)
     lineguard_rule(P, R)
+    prinsame_rule(P, R)
     openfirst_rule(P, R)
     dump_request_rule(P, R)
 
@@ -1032,3 +1033,51 @@ def lineguard_rule(P, R):
                         "leaves the view empty while the string holds the text" % (inst, T.text(c)[:60]), file=f["file"], line=x[1], function=f["q"])
     if n < 2:
         R.anchor_missing(RULE, "update_lines: only %d guarded rebuilds found" % n)
+
+
+def prinsame_rule(P, R):
+    """"switching any sinks on or off never changes computed results": phase::pr_in tells the BASIC functions PR_P / PR_PHI whether the
+    Peng-Robinson values stored in a phase are current.  print_saturation_indices resets it for every phase it lists, but runs only when
+    the saturation indices are printed; set_pr_in_false is what print_all calls otherwise.  The two must reset the same phases: a loop
+    over Phreeqc::phases with the same skip filter (`in == FALSE || type != SOLID`) in both, compared as sets of disjuncts."""
+    RULE = "C09.prinsame"
+    R.rule(RULE, "set_pr_in_false resets phase::pr_in for the same phases as print_saturation_indices (same loop, same skip filter)", minimum=1)
+
+    def disj(c):
+        c = T.strip_casts(c)
+        if T.is_node(c) and c[0] == "Paren":
+            return disj(c[2])
+        if T.is_node(c) and c[0] == "Bin" and c[2] == "||":
+            return disj(c[3]) | disj(c[4])
+        return {"".join(T.text(c, -40).split())}
+
+    def reset_loop(fn):
+        for lp in T.walk(fn["body"]):
+            if lp[0] != "For" or not T.is_node(lp[3]) or not any(y[0] == "Member" and y[2] == "Phreeqc::phases" for y in T.walk(lp[3])):
+                continue
+            body = lp[5][2] if T.is_node(lp[5]) and lp[5][0] == "Compound" else [lp[5]]
+            writes = [w for w in T.walk(lp[5]) if w[0] == "Bin" and w[2] == "=" and any(y[0] == "Member" and y[2] == "phase::pr_in" for y in T.walk(w[3]))]
+            if not writes:
+                continue
+            skips = set()
+            for st in body:
+                if T.is_node(st) and st[0] == "If" and T.is_node(st[3]) and any(y[0] == "Continue" for y in T.walk(st[3])) and st[1] < writes[0][1] \
+                        and not any(T.callee_name(c) for c in T.calls(st[2])):
+                    ds = disj(st[2])
+                    if all("phases" in d_ for d_ in ds) and all(".in==" in d_ or ".type!=" in d_ for d_ in ds):
+                        skips |= ds
+            return lp[1], skips
+        return None
+    a, b = reset_loop(P.one("Phreeqc::print_saturation_indices")), reset_loop(P.one("Phreeqc::set_pr_in_false"))
+    f = P.one("Phreeqc::set_pr_in_false")
+    if a is None:
+        R.anchor_missing(RULE, "print_saturation_indices: loop over phases that resets pr_in not found")
+        return
+    if b is None:
+        R.violation(RULE, "set_pr_in_false", "set_pr_in_false has no loop over Phreeqc::phases that resets pr_in: with the output off only pure-phase unknowns and gas components are "
+                    "reset, PR_P / PR_PHI of other phases keep values that a run with the output on clears", file=f["file"], line=f["line"], function=f["q"])
+    elif a[1] == b[1]:
+        R.ok(RULE, "set_pr_in_false", "same skip filter {%s}" % ", ".join(sorted(a[1])))
+    else:
+        R.violation(RULE, "set_pr_in_false", "set_pr_in_false skips {%s}, print_saturation_indices skips {%s}: the two paths of print_all reset different phases"
+                    % (", ".join(sorted(b[1])), ", ".join(sorted(a[1]))), file=f["file"], line=b[0], function=f["q"])
